@@ -9,7 +9,7 @@ documentation's precedence chain (slots.Oracle.winner) under every model of the 
   Try* vs plain                                 : body(Try) == Ok(body(plain)) (assignment lists equal for into_existing);
   into_existing vs into                         : the assignment list `other.<slot> = e;` is slot for slot the `into` literal, nothing else assigned.
 Predicted tokens equal the real derive's output on every path (native validation)."""
-import sys, os
+import sys, os, re
 sys.path.insert(0, os.path.dirname(os.path.abspath(__file__)))
 from common import *   # noqa
 import z3
@@ -42,6 +42,39 @@ def agree_same_shape(a, b):
         return 'result expressions differ: %s vs %s' % (a['tail'], b['tail'])
     if a['assigns'] != b['assigns']:
         return 'assignments differ: %r vs %r' % (a['assigns'], b['assigns'])
+    return None
+
+
+def norm_calls(d, by_ref, fallible, existing):
+    """the statements of a body that are neither `let` bindings nor assignments (the pour of a bare #[parent]), brought to the
+    owned / infallible / into form so that flavours can be compared; -> (list, problem | None)"""
+    out = []
+    for c in d['calls']:
+        if c.startswith('letmutobj'):
+            continue
+        c0 = c
+        if by_ref:
+            c = re.sub(r'\(&\((self\.[\w.]+)\)\)', r'\1', c)
+        if 'into_existing(' in c:
+            if fallible:
+                if '.try_into_existing(' not in c or not c.endswith('?'):
+                    return out, 'the fallible flavour pours with `%s`: the error of the nested conversion is not propagated with `?`' % c0
+                c = c.replace('.try_into_existing(', '.into_existing(')[:-1]
+            elif '.try_into_existing(' in c or c.endswith('?'):
+                return out, 'the infallible flavour pours with `%s`' % c0
+            if existing:
+                c = c.replace('into_existing(other)', 'into_existing(&mutobj)')
+        out.append(c)
+    return out, None
+
+
+def calls_agree(ka, kb, da, db):
+    ca, pa = norm_calls(da, ka[0].startswith('Ref') or ka[0] == 'FromRef', ka[1], ka[0] in slots.EXISTING)
+    cb, pb = norm_calls(db, kb[0].startswith('Ref') or kb[0] == 'FromRef', kb[1], kb[0] in slots.EXISTING)
+    if pa or pb:
+        return pa or pb
+    if ca != cb:
+        return 'statements differ: %r vs %r' % (da['calls'], db['calls'])
     return None
 
 
@@ -101,6 +134,25 @@ def per_path(ctx, po, sh):
                 continue
             if sh.get('variant') == 'parent' and what == 'ref-vs-owned':
                 continue          # the child fields carry separate owned / by-ref instructions on purpose: different instructions apply
+            if sh.get('variant') == 'bareparent':
+                # post-init bodies: `let mut obj = Default::default(); obj.f = ..; <pour>; obj` — compared through assignments and the pour
+                why = calls_agree(ka, kb, decs[ka], decs[kb])
+                if why is None and what != 'existing-vs-into' and ka[0] not in slots.FROM and [(l.replace('other.', 'obj.'), r) for l, r in decs[ka]['assigns']] != [(l.replace('other.', 'obj.'), r) for l, r in decs[kb]['assigns']]:
+                    why = 'assignments differ: %r vs %r' % (decs[ka]['assigns'], decs[kb]['assigns'])
+                if why is None and what == 'existing-vs-into' and [(l.replace('obj.', 'other.'), r) for l, r in decs[ka]['assigns']] != decs[kb]['assigns']:
+                    why = 'into assigns %r but into_existing assigns %r' % (decs[ka]['assigns'], decs[kb]['assigns'])
+                if why is None and ka[0] in slots.FROM and what != 'try-vs-plain' and decs[ka]['tail'].replace('(&value)', 'value') != decs[kb]['tail'].replace('(&value)', 'value'):
+                    why = 'result expressions differ: %s vs %s' % (decs[ka]['tail'], decs[kb]['tail'])
+                ctx.cov['queries']['unsat' if why is None else 'sat'] += 1
+                if why and (what, ka, kb) not in reported:
+                    reported.add((what, ka, kb))
+                    text = po.spec.text(ev)
+                    nat = ctx.replay.run(text)
+                    if nat['status'] == 'ok' and expander.flat_text(nat['out']) == expander.flat(po.tokens):
+                        ctx.violation('flavour-agreement', '%s/bare-parent' % what, '%s %s vs %s: %s' % (what, ka, kb, why), {'input': text, 'output': nat['out'][:2500]})
+                    else:
+                        ctx.inconclusive.append('C07 counterexample does not reproduce natively: %s' % text)
+                continue
             tag = ''
             if what == 'existing-vs-into':
                 # position bookkeeping differs between `into` and `into_existing` when a skipped (ghost / parent) member precedes a mapped
